@@ -68,19 +68,22 @@ JudgeLALR(c, inp, o, fb, l, pl) ==
               nxt == NextE(c.rules, c.start, prefix)
               acc == StrSet(o.acc)
               \* an UnexpectedToken raised through the contextual lexer takes `expected` from the lexer, which
-              \* has no end-of-input terminal: $END is not required to be in it (reading, DESIGN section 6/C08)
-              exp == StrSet(o.exp) \cup (IF o.cfg = "lalr/contextual" THEN {END} ELSE {})
+              \* has no end-of-input terminal: where only $END is missing the clause carries the suffix of known
+              \* finding C08-end-not-in-expected (until the second hunt this was an exemption - DESIGN section 8)
+              exp == StrSet(o.exp)
+              NotInExp == IF o.cfg = "lalr/contextual" /\ acc \subseteq (exp \cup {END})
+                          THEN "accepts-not-in-expected@end-through-contextual-lexer" ELSE "accepts-not-in-expected"
           IN IF k = m + 1 THEN
                 (IF o.cls # "UnexpectedToken" \/ o.tt # END THEN "expected-$END-token-got-" \o o.cls \o ":" \o o.tt
                  ELSE IF o.pos # (IF m = 0 THEN 0 ELSE inp.tpos[m]) THEN "$END-does-not-carry-last-token-position"
                  ELSE IF o.hasacc /\ ~(acc \subseteq nxt) THEN Tag(c.rules, "accepts-has-illegal-terminal")
-                 ELSE IF o.hasacc /\ ~(acc \subseteq exp) THEN "accepts-not-in-expected"
+                 ELSE IF o.hasacc /\ ~(acc \subseteq exp) THEN NotInExp
                  ELSE "ok")
              ELSE
                 (IF o.cls \notin {"UnexpectedToken", "UnexpectedCharacters"} THEN "wrong-class-" \o o.cls
                  ELSE IF o.pos # inp.tpos[k] THEN (IF o.pos > inp.tpos[k] THEN "position-late" ELSE "position-early")
                  ELSE IF o.cls = "UnexpectedToken" /\ o.hasacc /\ ~(acc \subseteq nxt) THEN Tag(c.rules, "accepts-has-illegal-terminal")
-                 ELSE IF o.cls = "UnexpectedToken" /\ o.hasacc /\ ~(acc \subseteq exp) THEN "accepts-not-in-expected"
+                 ELSE IF o.cls = "UnexpectedToken" /\ o.hasacc /\ ~(acc \subseteq exp) THEN NotInExp
                  ELSE "ok")
 
 \* sent: the input is a sentence (then only an LALR rejection on a grammar with conflicts is judged here,
